@@ -82,6 +82,8 @@ func (fr *Frame) nativeCallVals(st *State, fn *ssa.Function, args []Val, sig *ty
 			// cause is preserved (used by errors.Cause / Is comparisons)
 			r.assumeGlobal(eq(app("errcause", e.S), app("errcause", in.S)))
 			r.assumeGlobal("(forall ((t Iface)) (! (= (errIs " + e.S + " t) (errIs " + in.S + " t)) :pattern ((errIs " + e.S + " t))))")
+			// the wrapped error "is" the error it wraps (ground instance of the two facts above, for the solver's benefit)
+			r.assumeGlobal(app("errIs", e.S, in.S))
 		}
 		if strings.HasSuffix(name, ".Cause") {
 			r.assumeGlobal(eq(e.S, app("errcause", in.S)))
